@@ -97,7 +97,7 @@ def run(ctx):
     # selection: the reported rule is never outranked by another candidate (all permutations)
     # (with referrer-level exceptions too: a candidate they disable must not take part in the selection at all, so every
     # disagreement of these replays counts here, not only "outranked")
-    verdictcheck.run(ctx, "verdict", [(3, 0), (2, 1)] if not full else [(4, 0), (3, 2)])
+    verdictcheck.run(ctx, "verdict", [(3, 0), (2, 1), (1, 2)] if not full else [(4, 0), (3, 2)])
     ctx.exhaustive = True
 
 
